@@ -43,6 +43,10 @@ def run(tier):
     from .. import memo
     memo.check_modules(chk, "C07.d-memo", ["hiten.algorithms.hamiltonian.pipeline", "hiten.algorithms.hamiltonian.hamiltonian", "hiten.algorithms.types.services.libration"],
                        floor=2, what="hand-rolled caches on the Hamiltonian construction path")
+    # the gamma that scales and centres the local frame is the equilibrium's distance ratio (C04.b quintic rule, re-filed)
+    from . import c04
+    from .common import Relabel
+    c04.gamma_quintics(Relabel(chk, {"C04.b": "C07.c(i)-gamma"}))
     _a_legendre(chk, N)
     _b_assembly(chk, N)
     _c_map_origin(chk)
